@@ -91,8 +91,8 @@ RULE = (
     "sequence up to the stated depth that ends in a save on four live objects (sequences with a non-applicable event are dropped and counted), plus every ordered "
     "pair of memory-sharing values of checks/_serial.MEM_BASES x placement x {zip, dir} (quick: all pairs as two attributes and in a list, the pairs containing the "
     "base value itself in a dict and across a nested object; tuple placement and the fixed point are left to the thorough tier), plus every ordered "
-    "pair of checks/_serial.TWIN_CLASSES x placement x {zip, dir} and x session x order of saves and loads (quick: no tuple placement, no fixed point, two of the three orders, "
-    "session store alternating). A point is "
+    "pair of checks/_serial.TWIN_CLASSES x placement x {zip, dir} and x session x order of saves and loads (quick: all pairs as two attributes, the related pairs of the "
+    "five core members in the other placements and in every session, the remaining related pairs as root-then-root; no tuple placement, no fixed point, two of the three orders). A point is "
     "non-trivial when the loaded object has at least one attribute to compare; distinct = distinct (graph descriptor, store[, configuration])."
 )
 
@@ -1046,28 +1046,48 @@ def eval_history(item, seed=0, scratch="/tmp"):
 # AutoSerialize node (class OBJECTS, module included), then the ordinary value equality; zip result == dir result.
 # A class nested in a class is refused loudly at load on the unchanged tree (AttributeError: the qualified name is looked up
 # with one getattr): such a load is counted, not flagged; if it loads, the class must be right.
+TWIN_CORE = ["a.Params", "b.Params", "c.Params(a.Params)", "a.NodeA", "s.NodeA"]  # quick: the members multiplied into every placement / session
+
+
+def _twin_related(x, y):
+    """Same __name__, or one __name__ a prefix of the other."""
+    nx, ny = S.TWIN_CLASSES[x].__name__, S.TWIN_CLASSES[y].__name__
+    return nx.startswith(ny) or ny.startswith(nx)
+
+
 def twin_items(quick):
+    """thorough: every ordered pair (with the diagonal) x every placement x both stores with the fixed point, and every ordered pair
+    x session x order x every ordered pair of stores. quick (a sub-lattice): every ordered pair as two attributes (store alternating);
+    the related pairs of TWIN_CORE in every other placement but tuple, both stores; sessions: the related distinct pairs of TWIN_CORE x
+    session x two orders, every other related distinct pair as root-then-root (store alternating)."""
     ms = list(S.TWIN_CLASSES)
     out = []
+    n = 0
     for x in ms:
         for y in ms:
+            core = x in TWIN_CORE and y in TWIN_CORE and _twin_related(x, y)
             for pl in S.TWIN_PLACEMENTS:
-                if quick and pl == "tuple":  # tuples share the list decoder
-                    continue
-                out.append({"shape": "graph", "first": x, "second": y, "placement": pl, "fixed_point": not quick})
+                if not quick:
+                    out.append({"shape": "graph", "first": x, "second": y, "placement": pl, "stores": list(STORES), "fixed_point": True})
+                elif pl == "two_attributes":
+                    n += 1
+                    out.append({"shape": "graph", "first": x, "second": y, "placement": pl, "stores": [STORES[n % 2]], "fixed_point": False})
+                elif core and pl != "tuple":
+                    out.append({"shape": "graph", "first": x, "second": y, "placement": pl, "stores": list(STORES), "fixed_point": False})
     for x in ms:
         for y in ms:
+            core = x in TWIN_CORE and y in TWIN_CORE
             for ss in S.TWIN_SESSIONS:
                 for od in S.TWIN_ORDERS:
-                    if x == y and ss == "root_then_root" and od != "save_load_save_load":
+                    if x == y and (quick or (ss == "root_then_root" and od != "save_load_save_load")):
                         continue
-                    if quick and od == "save_save_load_load":
+                    if not quick:
+                        out += [{"shape": "session", "first": x, "second": y, "session": ss, "order": od, "stores": [s1, s2]} for s1 in STORES for s2 in STORES]
                         continue
-                    for s1, s2 in ([("zip", "zip"), ("dir", "dir")] if quick else [(a, b) for a in STORES for b in STORES]):
-                        # quick: the store alternates with the position in the product instead of being multiplied in
-                        if quick and (s1 == "zip") != ((ms.index(x) + ms.index(y) + S.TWIN_SESSIONS.index(ss) + S.TWIN_ORDERS.index(od)) % 2 == 0):
-                            continue
-                        out.append({"shape": "session", "first": x, "second": y, "session": ss, "order": od, "stores": [s1, s2]})
+                    if not _twin_related(x, y) or od == "save_save_load_load" or (not core and (ss != "root_then_root" or od != "save_load_save_load")):
+                        continue
+                    n += 1
+                    out.append({"shape": "session", "first": x, "second": y, "session": ss, "order": od, "stores": [STORES[n % 2]] * 2})
     return out
 
 
@@ -1098,7 +1118,7 @@ def run_twin(item, seed, scratch):
             tag = {"family": "class_twins", "placement": pl}
             inner = S.twin_is_inner(first) or S.twin_is_inner(second)
             loaded = {}
-            for store in STORES:
+            for store in item.get("stores", STORES):
                 label = f"store={store} same-named-classes graph {S.twin_show(first, second, pl)}"
                 st, y = S.save_load(S.twin_graph(first, second, pl, seed), wd, store, name="a")
                 rts += 1
@@ -1267,7 +1287,9 @@ def run(ctx):
         class_twins={"members": {m: S.twin_fullname(c) for m, c in S.TWIN_CLASSES.items()}, "ordered_pairs_with_diagonal": len(S.TWIN_CLASSES) ** 2,
                      "placements_in_one_graph": [p for p in S.TWIN_PLACEMENTS if not (ctx.quick and p == "tuple")], "sessions_of_two_round_trips": S.TWIN_SESSIONS,
                      "orders_of_saves_and_loads": [o for o in S.TWIN_ORDERS if not (ctx.quick and o == "save_save_load_load")],
-                     "stores": "graphs: both; sessions: " + ("zip+zip / dir+dir alternating over the product" if ctx.quick else "every ordered pair of stores"),
+                     "quick_core_members": TWIN_CORE if ctx.quick else "all members everywhere",
+                     "items_per_shape_and_placement": {k: sum(1 for it in twitems if it.get("placement", it.get("session")) == k) for k in S.TWIN_PLACEMENTS + S.TWIN_SESSIONS},
+                     "stores": ("two_attributes graphs and sessions: zip / dir alternating over the product; other placements: both" if ctx.quick else "graphs: both; sessions: every ordered pair of stores"),
                      "relations": ["class_identity (type(loaded) is type(original) at every AutoSerialize node)", "load_save_equals_input", "zip_equals_dir"] + ([] if ctx.quick else ["fixed_point"]),
                      "graphs": int(merged_tw.extra["twin_graphs"]), "sessions": int(merged_tw.extra["twin_sessions"]), "loads": int(merged_tw.extra["twin_loads"]),
                      "loads_judged_for_class_identity": int(merged_tw.extra["twin_loads_judged_for_class_identity"]),
